@@ -76,7 +76,8 @@ Proof.
     unfold fl_term, term_size, term_set, wf_term in *; cbn [is_intercept term_get] in *.
   - destruct (attr_set name x (wrap n vals)) as [st x'] eqn:E. injection H as Hst Ht. subst st t'.
     destruct (attr_set_readback name x n vals x' Hwf Hn Hlen Hat E) as [H1 H2]. split; auto.
-  - destruct (margs_set name (wrap n vals) ms) as [st ms'] eqn:E. injection H as Hst Ht. subst st t'.
+  - destruct Hwf as [Hwf Hby].
+    destruct (margs_set name (wrap n vals) ms) as [st ms'] eqn:E. injection H as Hst Ht. subst st t'.
     destruct (np_size (margs_get name ms)) as [k |] eqn:En; [| discriminate]. injection Hn as Hn. subst k.
     destruct (margs_set_readback name ms n vals ms' Hwf En Hlen Hat E) as [H1 H2]. split; auto.
 Qed.
